@@ -71,3 +71,16 @@ def ref_listing(node, spelled, mn, mx):
 
 def render_row(path, member):
     return path if member is None else "[%s] %s" % (path, member)
+
+
+def safe_walk_eval(ctx, exprs, tag, shard):
+    """model.Walk on the given expressions; [None, ...] when the model cannot be loaded after a proof failure
+    (the caller then compares the binary with its independent specification only)."""
+    from .common import coq_eval, CheckError
+    try:
+        return [parse_walk(t) for t in coq_eval(COQ_HEADER, exprs, ctx.scratch, tag=tag, shard=shard)]
+    except CheckError as e:
+        if "coqc failed" not in str(e) or not ctx.proof_failure:
+            raise
+        ctx.notes.append("model.Walk could not be loaded after the proof failure; the binary is compared with the independent specification only")
+        return [None] * len(exprs)
